@@ -82,19 +82,51 @@ theorem connLife_spec (c : Cfg) (s : St) (o : Outcome) :
 @[simp] theorem emit_proto (s : St) (o : Obs) : (s.emit o).proto = s.proto := rfl
 
 @[simp] theorem rw_log (c : Cfg) (s : St) : (reconnectWait c s).log = s.log := by
-  unfold reconnectWait; simp only []; split <;> rfl
+  unfold reconnectWait; cases s.disconnected <;> simp
 @[simp] theorem rw_disconnected (c : Cfg) (s : St) : (reconnectWait c s).disconnected = s.disconnected := by
-  unfold reconnectWait; simp only []; split <;> rfl
-@[simp] theorem rw_delay (c : Cfg) (s : St) : (reconnectWait c s).delay = some (delayNext c s.delay) := by
-  unfold reconnectWait; simp only []; split <;> rfl
-@[simp] theorem rw_proto (c : Cfg) (s : St) : (reconnectWait c s).proto = s.proto := by
-  unfold reconnectWait; simp only []; split <;> rfl
+  unfold reconnectWait; cases s.disconnected <;> simp
+@[simp] theorem rw_delay (c : Cfg) (s : St) (w : Bool) :
+    (reconnectWait c s w).delay = some (delayNext c s.delay) := by
+  unfold reconnectWait; cases s.disconnected <;> cases w <;> simp [St.emit]
+@[simp] theorem rw_proto (c : Cfg) (s : St) (w : Bool) : (reconnectWait c s w).proto = s.proto := by
+  unfold reconnectWait; cases s.disconnected <;> cases w <;> simp [St.emit]
 theorem rw_now (c : Cfg) (s : St) (h : s.disconnected = false) :
     (reconnectWait c s).now = s.now + delayNext c s.delay * 1000 := by
   unfold reconnectWait; simp [h]
 theorem rw_now' (c : Cfg) (s : St) (h : s.disconnected = true) :
     (reconnectWait c s).now = s.now := by
   unfold reconnectWait; simp [h]
+
+/-- already disconnected: the `inWait` flag is irrelevant (only the register is written) -/
+theorem rw_of_disconnected (c : Cfg) (s : St) (w : Bool) (h : s.disconnected = true) :
+    reconnectWait c s w = { s with delay := some (delayNext c s.delay) } := by
+  unfold reconnectWait; simp [h]
+
+/-- disconnect() from another thread during the wait -/
+theorem rw_true (c : Cfg) (s : St) (h : s.disconnected = false) :
+    reconnectWait c s true =
+      ({ s with delay := some (delayNext c s.delay), now := s.now + min (delayNext c s.delay) 1 * 1000,
+                disconnected := true } : St).emit (.userDisconnect (s.now + min (delayNext c s.delay) 1 * 1000)) := by
+  unfold reconnectWait; simp [h]
+
+theorem rw_log_true (c : Cfg) (s : St) (h : s.disconnected = false) :
+    (reconnectWait c s true).log = s.log ++ [.userDisconnect (s.now + min (delayNext c s.delay) 1 * 1000)] := by
+  rw [rw_true c s h]; rfl
+theorem rw_disconnected_true (c : Cfg) (s : St) : (reconnectWait c s true).disconnected = true := by
+  cases h : s.disconnected
+  · rw [rw_true c s h]; rfl
+  · rw [rw_of_disconnected c s _ h]; exact h
+theorem rw_now_true (c : Cfg) (s : St) (h : s.disconnected = false) :
+    (reconnectWait c s true).now = s.now + min (delayNext c s.delay) 1 * 1000 := by
+  rw [rw_true c s h]; rfl
+
+theorem rw_log_gen (c : Cfg) (s : St) (w : Bool) :
+    ∃ evs, (reconnectWait c s w).log = s.log ++ evs ∧ Obs.raised ∉ evs := by
+  cases w
+  · exact ⟨[], by simp, by simp⟩
+  · cases h : s.disconnected
+    · exact ⟨_, rw_log_true c s h, by simp⟩
+    · exact ⟨[], by rw [rw_of_disconnected c s _ h]; simp, by simp⟩
 
 def IsConn : Outcome → Prop
   | .refuse _ => False
@@ -105,8 +137,8 @@ theorem run_conn (c : Cfg) (fuel : Nat) (o : Outcome) (rest : List Outcome) (fir
     run c (fuel + 1) (o :: rest) first s =
       (let r := connLife c (s.emit (.attempt s.now true)) o
        if r.1.disconnected ∨ !c.rof then r.1.emit (.ret (if r.1.disconnected ∧ r.2.1 = 0 then 7 else r.2.1))
-       else if (reconnectWait c r.1).disconnected then (reconnectWait c r.1).emit (.ret r.2.1)
-       else run c fuel rest false (reconnectWait c r.1)) := by
+       else if (reconnectWait c r.1 o.disc.inWait).disconnected then (reconnectWait c r.1 o.disc.inWait).emit (.ret r.2.1)
+       else run c fuel rest false (reconnectWait c r.1 o.disc.inWait)) := by
   cases o <;> first | exact ho.elim | rfl
 
 theorem run_refuse (c : Cfg) (fuel : Nat) (d : DiscAt) (rest : List Outcome) (first : Bool) (s : St) : 
@@ -115,8 +147,8 @@ theorem run_refuse (c : Cfg) (fuel : Nat) (d : DiscAt) (rest : List Outcome) (fi
        let s2 := if d.inConnectFail then ({ s1 with disconnected := true }).emit (.userDisconnect s.now) else s1
        if first ∧ !c.retryFirst then s2.emit .raised
        else if s2.disconnected ∨ !c.rof then s2.emit (.ret 7)
-       else if (reconnectWait c s2).disconnected then (reconnectWait c s2).emit (.ret 7) 
-       else run c fuel rest false (reconnectWait c s2)) := rfl
+       else if (reconnectWait c s2 d.inWait).disconnected then (reconnectWait c s2 d.inWait).emit (.ret 7)
+       else run c fuel rest false (reconnectWait c s2 d.inWait)) := rfl
 
 
 theorem run_downgrade (c : Cfg) (fuel : Nat) (t : Nat) (rest : List Outcome) (first : Bool) (s : St) :
@@ -178,11 +210,18 @@ theorem run_struct (c : Cfg) (fuel : Nat) : ∀ (script : List Outcome) (first :
         · rename_i hc
           have hd : r.1.disconnected = false := by
             cases h : r.1.disconnected <;> simp_all
-          simp only [rw_disconnected, hd]
-          have := ih rest false (reconnectWait c r.1) (by simpa using hd)
-          refine Struct.step ([.attempt s.now true] ++ evs) ?_ ?_
-          · simpa [hlog] using this
-          · rw [List.all_append, (hdisc hd).2]; simp [isUD]
+          generalize o.disc.inWait = w
+          cases w
+          · simp only [rw_disconnected, hd]
+            have := ih rest false (reconnectWait c r.1) (by simpa using hd)
+            refine Struct.step ([.attempt s.now true] ++ evs) ?_ ?_
+            · simpa [hlog] using this
+            · rw [List.all_append, (hdisc hd).2]; simp [isUD]
+          · simp only [rw_disconnected_true, if_true]
+            have := Struct.close s.log ([.attempt s.now true] ++ evs)
+              [.userDisconnect (r.1.now + min (delayNext c r.1.delay) 1 * 1000)] (.ret r.2.1)
+              (by rw [List.all_append, (hdisc hd).2]; simp [isUD]) (by simp [isAtt]) rfl
+            simpa [hlog, rw_log_true _ _ hd] using this
       · cases o with
         | refuse d =>
           rw [run_refuse]
@@ -196,11 +235,19 @@ theorem run_struct (c : Cfg) (fuel : Nat) : ∀ (script : List Outcome) (first :
               · have := Struct.close s.log [.attempt s.now false, .onConnectFail s.now] [] (.ret 7)
                   (by simp [isUD]) (by simp) rfl
                 simpa using this
-              · simp only [rw_disconnected, emit_disconnected, hs, Bool.false_eq_true, if_false]
-                have := ih rest false (reconnectWait c ((s.emit (.attempt s.now false)).emit (.onConnectFail s.now)))
-                  (by simpa using hs)
-                refine Struct.step [.attempt s.now false, .onConnectFail s.now] ?_ (by simp [isUD])
-                simpa using this
+              · cases d.inWait
+                · simp only [rw_disconnected, emit_disconnected, hs, Bool.false_eq_true, if_false]
+                  have := ih rest false (reconnectWait c ((s.emit (.attempt s.now false)).emit (.onConnectFail s.now)))
+                    (by simpa using hs)
+                  refine Struct.step [.attempt s.now false, .onConnectFail s.now] ?_ (by simp [isUD])
+                  simpa using this
+                · simp only [rw_disconnected_true, if_true]
+                  have hs2 : ((s.emit (.attempt s.now false)).emit (.onConnectFail s.now)).disconnected = false := by
+                    simpa using hs
+                  have := Struct.close s.log [.attempt s.now false, .onConnectFail s.now]
+                    [.userDisconnect (s.now + min (delayNext c s.delay) 1 * 1000)] (.ret 7)
+                    (by simp [isUD]) (by simp [isAtt]) rfl
+                  simpa [rw_log_true _ _ hs2] using this
           · simp only [if_true]
             split
             · have := Struct.close s.log [.attempt s.now false, .onConnectFail s.now] [.userDisconnect s.now] .raised
@@ -360,18 +407,22 @@ theorem run_gap (c : Cfg) (hc : 1 ≤ c.minDelay ∧ c.minDelay ≤ c.maxDelay) 
         · rename_i hcnd
           have hd : r.1.disconnected = false := by
             cases h : r.1.disconnected <;> simp_all
-          simp only [rw_disconnected, hd]
-          have hb := delayNext_bounds c hc _ hreg'
-          refine ih rest false (reconnectWait c r.1) (by simpa using hd) ?_ (by simpa using hg1) ?_
-          · rw [rw_delay]; intro x hx; cases hx; exact hb
-          · rw [rw_log, rw_now _ _ hd, hlog]
-            intro x t hx hxa hxt
-            rw [List.getLast?_append, hel] at hx
-            simp at hx; subst hx
-            rw [het] at hxt; cases hxt
-            constructor
-            · exact Nat.add_le_add_left (Nat.mul_le_mul_right _ hb.1) _
-            · exact Nat.add_le_add_left (Nat.mul_le_mul_right _ hb.2) _
+          generalize o.disc.inWait = w
+          cases w
+          · simp only [rw_disconnected, hd]
+            have hb := delayNext_bounds c hc _ hreg'
+            refine ih rest false (reconnectWait c r.1) (by simpa using hd) ?_ (by simpa using hg1) ?_
+            · rw [rw_delay]; intro x hx; cases hx; exact hb
+            · rw [rw_log, rw_now _ _ hd, hlog]
+              intro x t hx hxa hxt
+              rw [List.getLast?_append, hel] at hx
+              simp at hx; subst hx
+              rw [het] at hxt; cases hxt
+              constructor
+              · exact Nat.add_le_add_left (Nat.mul_le_mul_right _ hb.1) _
+              · exact Nat.add_le_add_left (Nat.mul_le_mul_right _ hb.2) _
+          · simp only [rw_disconnected_true, if_true, emit_log, rw_log_true _ _ hd]
+            exact (hg1.append_noatt [_] (by simp [isAtt])).append_noatt [_] (by simp [isAtt])
       · cases o with
         | refuse d =>
           rw [run_refuse]
@@ -384,17 +435,22 @@ theorem run_gap (c : Cfg) (hc : 1 ≤ c.minDelay ∧ c.minDelay ≤ c.maxDelay) 
             · exact hg2.append_noatt [_] (by simp [isAtt])
             · split
               · exact hg2.append_noatt [_] (by simp [isAtt])
-              · simp only [rw_disconnected, emit_disconnected, hs, Bool.false_eq_true, if_false]
-                have hb := delayNext_bounds c hc _ hreg
-                refine ih rest false _ (by simpa using hs) ?_ (by simpa using hg2) ?_
-                · rw [rw_delay]; intro x hx; cases hx; exact hb
-                · rw [rw_log, rw_now _ _ (by simpa using hs)]
-                  intro x t hx hxa hxt
-                  simp at hx; subst hx
-                  simp [oTime] at hxt; subst hxt
-                  constructor
-                  · exact Nat.add_le_add_left (Nat.mul_le_mul_right _ hb.1) _
-                  · exact Nat.add_le_add_left (Nat.mul_le_mul_right _ hb.2) _
+              · cases d.inWait
+                · simp only [rw_disconnected, emit_disconnected, hs, Bool.false_eq_true, if_false]
+                  have hb := delayNext_bounds c hc _ hreg
+                  refine ih rest false _ (by simpa using hs) ?_ (by simpa using hg2) ?_
+                  · rw [rw_delay]; intro x hx; cases hx; exact hb
+                  · rw [rw_log, rw_now _ _ (by simpa using hs)]
+                    intro x t hx hxa hxt
+                    simp at hx; subst hx
+                    simp [oTime] at hxt; subst hxt
+                    constructor
+                    · exact Nat.add_le_add_left (Nat.mul_le_mul_right _ hb.1) _
+                    · exact Nat.add_le_add_left (Nat.mul_le_mul_right _ hb.2) _
+                · have hs2 : ((s.emit (.attempt s.now false)).emit (.onConnectFail s.now)).disconnected = false := by
+                    simpa using hs
+                  simp only [rw_disconnected_true, if_true, emit_log, rw_log_true _ _ hs2]
+                  exact (hg2.append_noatt [_] (by simp [isAtt])).append_noatt [_] (by simp [isAtt])
           · simp only [if_true]
             have hg2 : GapOK c (({ (s.emit (.attempt s.now false)).emit (.onConnectFail s.now) with
                 disconnected := true } : St).emit (.userDisconnect s.now)).log :=
@@ -432,10 +488,11 @@ theorem run_log_mono (c : Cfg) (fuel : Nat) : ∀ (script : List Outcome) (first
         simp only []
         split
         · exact ⟨_, by simp [hlog]; rfl⟩
-        · split
-          · exact ⟨_, by simp [hlog]; rfl⟩
-          · obtain ⟨evs', h⟩ := ih rest false (reconnectWait c r.1)
-            exact ⟨_, by rw [h]; simp [hlog]; rfl⟩
+        · obtain ⟨wevs, hw, -⟩ := rw_log_gen c r.1 o.disc.inWait
+          split
+          · exact ⟨_, by simp [hw, hlog]; rfl⟩
+          · obtain ⟨evs', h⟩ := ih rest false (reconnectWait c r.1 o.disc.inWait)
+            exact ⟨_, by rw [h]; simp [hw, hlog]; rfl⟩
       · cases o with
         | refuse d =>
           rw [run_refuse]
@@ -445,11 +502,12 @@ theorem run_log_mono (c : Cfg) (fuel : Nat) : ∀ (script : List Outcome) (first
             · exact ⟨_, by simp; rfl⟩
             · split
               · exact ⟨_, by simp; rfl⟩
-              · split
-                · exact ⟨_, by simp; rfl⟩
+              · obtain ⟨wevs, hw, -⟩ := rw_log_gen c ((s.emit (.attempt s.now false)).emit (.onConnectFail s.now)) d.inWait
+                split
+                · exact ⟨_, by simp [hw]; rfl⟩
                 · obtain ⟨evs', h⟩ := ih rest false
-                    (reconnectWait c ((s.emit (.attempt s.now false)).emit (.onConnectFail s.now)))
-                  exact ⟨_, by rw [h]; simp; rfl⟩
+                    (reconnectWait c ((s.emit (.attempt s.now false)).emit (.onConnectFail s.now)) d.inWait)
+                  exact ⟨_, by rw [h]; simp [hw]; rfl⟩
           · simp only [if_true]
             split
             · exact ⟨_, by simp; rfl⟩
@@ -552,9 +610,10 @@ theorem run_no_raised (c : Cfg) (fuel : Nat) : ∀ (script : List Outcome) (firs
         simp only []
         split
         · simp [h1]
-        · split
-          · simp [h1]
-          · exact ih rest false _ (.inl rfl) (by simpa using h1)
+        · obtain ⟨wevs, hw, hwr⟩ := rw_log_gen c r.1 o.disc.inWait
+          split
+          · simp [hw, h1, hwr]
+          · exact ih rest false _ (.inl rfl) (by simp [hw, h1, hwr])
       · cases o with
         | refuse d =>
           rw [run_refuse]
@@ -563,9 +622,10 @@ theorem run_no_raised (c : Cfg) (fuel : Nat) : ∀ (script : List Outcome) (firs
           · simp only [Bool.false_eq_true, if_false]
             split
             · simp [h]
-            · split
-              · simp [h]
-              · exact ih rest false _ (.inl rfl) (by simp [h])
+            · obtain ⟨wevs, hw, hwr⟩ := rw_log_gen c ((s.emit (.attempt s.now false)).emit (.onConnectFail s.now)) d.inWait
+              split
+              · simp [hw, h, hwr]
+              · exact ih rest false _ (.inl rfl) (by simp [hw, h, hwr])
           · simp [h]
         | downgrade t =>
           rw [run_downgrade]
